@@ -300,6 +300,10 @@ theorem buildCursorCol_same_query {φ : Type} (q : ColQuery φ) (o : Order) (ret
       · cases hq'
     · split at h
       · cases h
+        simp only [Option.mem_def, reduceCtorEq, or_false] at hq'
+        split at hq'
+        · cases hq'; exact ⟨rfl, rfl, rfl⟩
+        · cases hq'
       · cases h
         simp only [Option.mem_def] at hq'
         rcases hq' with hq' | hq'
